@@ -51,15 +51,19 @@ Soft(name, cond, detail) ==
 
 (* ----- steps nobody observes from outside ----- *)
 Hidden(s) ==
-  DoLDial(s) \cup DoWaitRet(s) \cup DoLWaitRet(s) \cup {t \in DoReaperStart(s) : t.exec = "ok"}
-  \cup UNION {{t \in DoKBody(s, i) : t.exec = "ok"} \cup DoKClose(s, i) \cup DoKKill9(s, i) \cup DoKEnd(s, i)
+  DoLDial(s) \cup DoWaitRet(s) \cup DoLWaitRet(s) \cup {t \in DoReaperStart(s) : t.exec = s.exec}
+  \cup UNION {{t \in DoKBody(s, i) : t.exec = s.exec} \cup DoKClose(s, i) \cup DoKKill9(s, i) \cup DoKEnd(s, i)
               \cup (IF s.child # "running" THEN DoKTerm(s, i) \cup DoKInt(s, i) ELSE {})
               \cup DoTransBody(s, i) \cup DoTransCommit(s, i) \cup DoKillBodyBasic(s, i)
-              \cup DoNoopBody(s, i) \cup DoStartBody(s, i) \cup {t \in DoStopBody(s, i) : t.exec = "ok"} \cup DoStopKill(s, i) : i \in HIdx(s)}
+              \cup DoNoopBody(s, i) \cup DoStartBody(s, i) \cup {t \in DoStopBody(s, i) : t.exec = s.exec} \cup DoStopKill(s, i) : i \in HIdx(s)}
+(* a panic is recorded when the process has died, which is later than the panic itself *)
+ObsPanic(s) ==
+  {t \in DoLPoll(s) \cup DoReaperStart(s) \cup UNION {DoStopBody(s, i) \cup DoKBody(s, i) : i \in HIdx(s)} : t.exec = "panicked"}
+HiddenAll(s) == Hidden(s) \cup (IF s.exec = "ok" THEN {[t EXCEPT !.exec = "dying"] : t \in ObsPanic(s)} ELSE {})
 RECURSIVE Clo(_, _)
 Clo(X, n) ==
   IF n = 0 THEN X
-  ELSE LET Y == X \cup UNION {Hidden(s) : s \in X} IN IF Y = X THEN X ELSE Clo(Y, n - 1)
+  ELSE LET Y == X \cup UNION {HiddenAll(s) : s \in X} IN IF Y = X THEN X ELSE Clo(Y, n - 1)
 Closure(X) == Clo(X, 14)
 
 (* ----- the observable step named by a line, from one candidate ----- *)
@@ -70,10 +74,7 @@ ObsStatus(s) ==
   LET st == Short(Line.state)
       acts == DoTimer(s) \cup DoLPoll(s) \cup DoLWait(s) \cup DoLDialTimeout(s) \cup DoLPollTimeout(s)
               \cup UNION {DoKillSend(s, i) : i \in HIdx(s)}
-  IN {t \in acts : t.exec = "ok" /\ t.sent = Append(s.sent, st)}
-
-ObsPanic(s) ==
-  {t \in DoLPoll(s) \cup DoReaperStart(s) \cup UNION {DoStopBody(s, i) \cup DoKBody(s, i) : i \in HIdx(s)} : t.exec = "panicked"}
+  IN {t \in acts : t.exec = s.exec /\ t.sent = Append(s.sent, st)}
 
 Obs(s) ==
   LET e == Line.ev IN
@@ -88,8 +89,8 @@ Obs(s) ==
     [] e = "Sig" -> IF s.child \in {"running", "exiting"} /\ (Line.obeyed <=> Obeys(s))
                       THEN UNION {IF Line.sig = "TERM" THEN DoKTerm(s, i) ELSE DoKInt(s, i) : i \in HIdx(s)}
                       ELSE {}
-    [] e = "ExecutorExit" -> ObsPanic(s)
-    [] e = "End" -> IF (Line.alive > 0) <=> (s.child = "running" \/ s.grand) THEN {s} ELSE {}
+    [] e = "ExecutorExit" -> IF s.exec = "dying" THEN {[s EXCEPT !.exec = "panicked"]} ELSE {}
+    [] e = "End" -> IF s.exec = "ok" /\ ((Line.alive > 0) <=> (s.child = "running" \/ s.grand)) THEN {s} ELSE {}
     [] OTHER -> {}
 
 Skipped == Line.ev \in {"Note", "Occ", "ChildExit", "Fin", "HarnessError"}
